@@ -136,6 +136,10 @@ pub fn exec(tok: &[&str]) -> String {
         "u32f_new" => vh::u32f_new(tok[1].parse().unwrap()).to_string(),
         "u32f_balanced" => vh::u32f_balanced(tok[1].parse().unwrap()).to_string(),
         "u32f_add" => vh::u32f_add(tok[1].parse().unwrap(), tok[2].parse().unwrap()).to_string(),
+        "u32f_add_assign" => vh::u32f_assign(b'+', tok[1].parse().unwrap(), tok[2].parse().unwrap()).to_string(),
+        "u32f_sub_assign" => vh::u32f_assign(b'-', tok[1].parse().unwrap(), tok[2].parse().unwrap()).to_string(),
+        "u32f_mul_assign" => vh::u32f_assign(b'*', tok[1].parse().unwrap(), tok[2].parse().unwrap()).to_string(),
+        "u32f_div" => vh::u32f_div(tok[1].parse().unwrap(), tok[2].parse().unwrap()).to_string(),
         "u32f_sub" => vh::u32f_sub(tok[1].parse().unwrap(), tok[2].parse().unwrap()).to_string(),
         "u32f_mul" => vh::u32f_mul(tok[1].parse().unwrap(), tok[2].parse().unwrap()).to_string(),
         "u32f_inv" => vh::u32f_inverse_or_zero(tok[1].parse().unwrap()).to_string(),
